@@ -75,6 +75,12 @@ def build(spec):
         data["energy"] = 7.5
         data["label"] = "hello"
         data["vec"] = np.arange(9.0 if n != 9 else 10.0)   # a non-column array (its length is never n)
+        # array-valued scalars (tunes, a matrix ...) whose first dimension happens to equal a row count - of this table
+        # or of a table derived from it - are scalars all the same: they are not listed as columns
+        data["svec"] = np.arange(float(n)) + 0.5
+        data["smat"] = np.arange(float(n * n)).reshape(n, n)
+        data["s2"] = np.array([1.5, 2.5])
+        data["s4"] = np.array([1.0, 2.0, 3.0, 4.0])
     return Table(data, col_names=cols, index=idx)
 
 
@@ -94,7 +100,8 @@ def cell(x):
 def snapshot(t):
     return {"len": len(t), "cols": list(t._col_names), "index": t._index,
             "data": {c: cell(np.asarray(t._data[c])) for c in t._col_names},
-            "scalars": {k: cell(t._data[k]) for k in t.keys(exclude_columns=True)}}
+            # scalar entries = data entries that are not listed as columns (computed here, not asked of the table)
+            "scalars": {k: cell(t._data[k]) for k in t._data if k not in t._col_names}}
 
 
 def check_rect(t, where):
